@@ -698,7 +698,21 @@ impl Analyzable for DataExpr {
             DataExpr::StructConstructor(x) => x.analyze(parent),
             DataExpr::ListConstructor(x) => x.analyze(parent),
             DataExpr::MapConstructor(x) => x.analyze(parent),
-            DataExpr::Identifier(x) => x.analyze(parent),
+            DataExpr::Identifier(x) => {
+                let report = x.analyze(parent);
+
+                // a name that stands for a definition rather than a value can't be an expression
+                match &x.symbol {
+                    Some(
+                        symbol @ (Symbol::AssetDef(_)
+                        | Symbol::TypeDef(_)
+                        | Symbol::AliasDef(_)
+                        | Symbol::VariantCase(_)
+                        | Symbol::Function(_)),
+                    ) => report + Error::invalid_symbol("value", symbol, x).into(),
+                    _ => report,
+                }
+            }
             DataExpr::AddOp(x) => x.analyze(parent),
             DataExpr::SubOp(x) => x.analyze(parent),
             DataExpr::NegateOp(x) => x.analyze(parent),
